@@ -109,6 +109,37 @@ impl Scenario for BlockLockstep {
     }
 
     fn generate(&self, rng: &mut Rng, index: u64, thorough: bool, case: &mut Case) {
+        // giant-block stratum: a block that fills a whole 16 KiB region with the slowest one-byte instruction, so that the
+        // block's cycle sum reaches the top of the 16-bit range the translated code keeps its counter in
+        if index % 20000 == 19999 || (thorough && index % 997 == 0) {
+            let op = rng.pick(&[0xc5u8, 0xd5, 0xe5, 0xf5, 0x34, 0x35, 0xc5, 0xf5]);
+            let term = rng.pick(&[0xc9u8, 0xc7, 0xff, 0xe9, 0x76, 0xd9, 0xc0, 0xc8]);
+            let n = match rng.below(3) {
+                0 => 0x3fff,
+                1 => 0x3fff - rng.below(4) as usize,
+                _ => 0x3000 + rng.below(0xfff) as usize,
+            };
+            let mut code = vec![op; n];
+            code.push(term);
+            // in the second half of a ROM-only cartridge: clear of the header, and its bank registers do nothing
+            let start = 0x8000 - code.len();
+            case.set("focus", op as i64);
+            case.set("cart_type", 0);
+            case.set("rom_code", 0);
+            case.set("ram_code", 3);
+            case.set("rom_fill", 0);
+            case.set("ramfill", 1 + rng.below(1 << 30) as i64);
+            case.set("mode", rng.below(2) as i64);
+            case.set("hostmm", 0);
+            case.set("term", term as i64);
+            case.set("age", 0);
+            case.set("giant", 1);
+            case.blobs.insert(patch_key(start), code);
+            let f = (rng.below(16) << 4) as i64;
+            case.push("regs", &[0x1200 | f, 0x8013, 0x80d8, 0xc100, 0xdff0, start as i64, 0]);
+            case.push("exec", &[]);
+            return;
+        }
         let (cb, fop) = sm83::focus_encoding(index);
         case.set("focus", if cb { 0x100 } else { 0 } | fop as i64);
         let cart_type = rng.pick(&[0x00u8, 0x01, 0x03, 0x11, 0x13, 0x01, 0x13]);
@@ -374,7 +405,7 @@ impl Scenario for BlockLockstep {
                     // ... and thereby remaps the bank it is running from (known-finding class; real hardware and the interpreter
                     // fetch the next instruction from the new bank, translated code finishes the old block)
                     let bank_writes = ti.iter().filter(|e| e.0 == 1 && e.1 >= 0x2000 && e.1 < 0x8000).count();
-                    let self_switch = reaches_high && bank_writes > 0 && (i.rom_bank() != bank_before || bank_writes > 1);
+                    let self_switch = case.get("cart_type") != 0 && reaches_high && bank_writes > 0 && (i.rom_bank() != bank_before || bank_writes > 1);
                     let cell = (fenc as u64) << 24 | ((before.af as u64 >> 4) & 0xf) << 20 | region_of(before.hl as u16) << 16 | region_of(before.sp as u16) << 12 | (case.get("age") as u64) << 4 | hit as u64;
                     match (&ej, &ei) {
                         (Exec::Panicked(pj), Exec::Panicked(pi)) => {
@@ -404,6 +435,10 @@ impl Scenario for BlockLockstep {
                             let sni = i.snap(true);
                             if hit {
                                 ctx.cov.hit("probe.cache_hit_executions");
+                            }
+                            if case.get("giant") != 0 {
+                                ctx.cov.hit("probe.giant_blocks_executed");
+                                ctx.cov.mark("giant_block_cycle_sums", sni.get(if mode == 1 { "last_block_cycles" } else { "cycles" }));
                             }
                             ctx.cov.mark("distinct", cell);
                             if before.ip < 0x4000 && i.regs().ip == 0x4000 && case.get("falls_through") != 0 {
